@@ -5,6 +5,7 @@ import (
 	"go/constant"
 	"go/types"
 	"strings"
+	"utilcheck/flow"
 
 	"utilcheck/tab"
 
@@ -104,6 +105,85 @@ func strEmptyKey(a, b pred.Val) (string, bool) {
 		}
 	}
 	return "", false
+}
+
+// wrapsSentinel: the abstract error value v makes errors.Is(v, sentinel) true by construction: it is the sentinel
+// itself (a load of the package variable, printed "*pkg.ErrX"), or fmt.Errorf(format, args…) whose argument bound to
+// a %w verb is such a value (recursively), or a typed parse error of the module (a boxed pointer to a struct) whose
+// error-typed field is. A sentinel that only appears as text (Err.Error() under %s, the value under %v) does not count.
+func wrapsSentinel(v pred.Val, sentinel string) bool {
+	switch x := v.(type) {
+	case pred.Sym:
+		return x.Name == sentinel
+	case pred.Iface:
+		if p, ok := x.V.(pred.Ptr); ok && p.Cell != nil {
+			if s, ok := p.Cell.V.(*pred.StructV); ok {
+				for _, f := range s.Fields {
+					if wrapsSentinel(f, sentinel) {
+						return true
+					}
+				}
+			}
+			return false
+		}
+		return wrapsSentinel(x.V, sentinel)
+	case pred.Term:
+		if !strings.HasPrefix(x.Fn, "fmt.Errorf") || len(x.Args) < 2 {
+			return false
+		}
+		fc, ok := x.Args[0].(pred.Const)
+		if !ok || fc.V == nil || fc.V.Kind() != constant.String {
+			return false
+		}
+		sv, ok := x.Args[1].(*pred.SliceV)
+		if !ok {
+			return false
+		}
+		arg := 0
+		for _, it := range flow.ParseFormat(constant.StringVal(fc.V)) {
+			if it.Verb == 0 {
+				continue
+			}
+			if it.ArgIx > 0 {
+				arg = it.ArgIx - 1
+			}
+			if it.Verb == 'w' && arg < len(sv.Elems) && wrapsSentinel(sv.Elems[arg].V, sentinel) {
+				return true
+			}
+			arg++
+		}
+	}
+	return false
+}
+
+// errorfWrapped: the value bound to the (first) %w verb of v = fmt.Errorf(constant format, args…); nil if there is none.
+func errorfWrapped(v pred.Val) pred.Val {
+	x, ok := v.(pred.Term)
+	if !ok || !strings.HasPrefix(x.Fn, "fmt.Errorf") || len(x.Args) < 2 {
+		return nil
+	}
+	fc, ok := x.Args[0].(pred.Const)
+	if !ok || fc.V == nil || fc.V.Kind() != constant.String {
+		return nil
+	}
+	sv, ok := x.Args[1].(*pred.SliceV)
+	if !ok {
+		return nil
+	}
+	arg := 0
+	for _, it := range flow.ParseFormat(constant.StringVal(fc.V)) {
+		if it.Verb == 0 {
+			continue
+		}
+		if it.ArgIx > 0 {
+			arg = it.ArgIx - 1
+		}
+		if it.Verb == 'w' && arg < len(sv.Elems) {
+			return sv.Elems[arg].V
+		}
+		arg++
+	}
+	return nil
 }
 
 // byteSinkSummaries models bytes.Buffer as an append-only byte sequence held in a cell, and fmt's printing functions
